@@ -4,6 +4,7 @@ specs/codec/Graph6.tla       graph6 / digraph6 as arithmetic on byte sequences (
 specs/codec/MatBinary.tla    the 40-byte header of mat's binary form and the decision table of the decoders
 specs/codec/RdfIso.tla       datasets as sets of quads, isomorphism by brute force over blank-node bijections
 specs/codec/DotAbstract.tla  abstract DOT structure over a quoting-hostile string pool (round trip = identity)
+specs/codec/NQuadsAbstract.tla  abstract N-Quads statement content over hostile literal texts (print then parse = identity)
 specs/codec/HllState.tla     HyperLogLog sketch state, Marshal/Unmarshal/Union/SetHash rules, malformed-field grid
 specs/codec/PrngStream.tla   generator = place in a reference stream; PrngStreamTrace.tla validates recorded histories
 
@@ -105,6 +106,21 @@ def run_dot(ctx, bins):
             ctx.replay(b, "codec-dot", cases, name="R2 replay dot %s %s [%s]" % (mode, what, bn))
 
 
+def run_nquads(ctx, bins):
+    thorough = ctx.tier == "thorough"
+    spec, cfg = "codec/NQuadsAbstract.tla", "codec/NQuadsAbstract.cfg"
+    runs = [("lit1", "every literal text of the pool; all subject/object/label shapes", 0, 1)]
+    if thorough:
+        runs += [("lit2", "text x qualifier x subject x label, shard %d/2" % i, i, 2) for i in range(2)]
+    else:
+        runs.append(("lit2", "text x qualifier x subject x label, shard %d/4 (by seed)" % (ctx.seed % 4), ctx.seed % 4, 4))
+    for mode, what, shard, nshards in runs:
+        cases = ctx.gen(spec, cfg, subst=dict(MODE=mode, SEED=ctx.seed, SHARD=shard, NSHARDS=nshards, EMIT="TRUE"),
+                        name="R1+R2 gen nquads %s (%s)" % (mode, what))
+        for bn, b in bins.items():
+            ctx.replay(b, "codec-nquads", cases, name="R2 replay nquads %s [%s]" % (mode, bn))
+
+
 def run_hll(ctx, bins):
     for w in (64, 32):
         cases = ctx.gen("codec/HllState.tla", "codec/HllState.cfg",
@@ -141,6 +157,7 @@ def run(ctx):
     run_mat(ctx, bins)
     run_rdf(ctx, bins)
     run_dot(ctx, bins)
+    run_nquads(ctx, bins)
     run_hll(ctx, bins)
     run_prng(ctx, bins)
 
